@@ -878,7 +878,7 @@ func xprogBatch(cases []Case) []string {
 }
 
 var xprogStream = &Stream{
-	Name: "extended-programs", Quick: 800, Thorough: 8000, New: func() Case { return &xprogCase{} },
+	Name: "extended-programs", Quick: 1500, Thorough: 10000, New: func() Case { return &xprogCase{} },
 	Gen:      func(r *Rng, i int) Case { return genXProg(r) },
 	BatchRun: xprogBatch, ShrinkBudget: 40, MaxShrinks: 5,
 	Rule: "programs of 2–6 functions over the extended language of Model/Resolver2: 1–3 results of int/string/error (named in a third of the functions), parameters none / `e error` / `fn func() error` / `fn func() (int, error)`, 0–3 local variables, 1–6 statements (some inside `if` blocks) among single, tuple, forwarding (`x, err = F()`) and `+=` assignments to locals, named results, captured variables, package variables and struct fields, full / forwarding / bare returns; expressions: literals, nil, opaque, identifiers (locals, named results, parameters, package variables of the same and of another file, selectors), calls with an error argument (itself an identifier, nil or a call) or a function literal argument with its own locals and statements, calls through a function-typed parameter, functions declared without body, and a literal-only function now and then; printed to Go (two files), loaded with the real loader (100 per load), every top-level function of a program asked one after the other on the same loaded package in supervised children (the model answers each question from scratch); every statement carries its source-order number for the model; compared: FuncResults.String(); oracle as for the core programs",
